@@ -449,3 +449,31 @@ func H_C06_keys_of_several_bytes() {
 	verifAssert(o.Count() == 2 && !o.KeyExists(k) && o.KeyExists("a") && o.Get("n") == any(inner), "after two operations every live object shows what the map model predicts")
 	verifReach("end")
 }
+
+// Merge takes the argument's containers by reference (they are values "held by reference" like any other), whatever
+// the receiver holds — no field, another field, or a field under the same key
+func H_C06_merge_argument_by_reference() {
+	inL, inO := NewList(nondetInt()), NewObject("p", 1)
+	arg := NewObject("l", inL, "o", inO, "n", 5)
+	var recv Object
+	switch nondetIntRange(0, 3) {
+	case 0:
+		recv = NewObject()
+	case 1:
+		recv = NewObject("x", 1)
+	case 2:
+		recv = NewObject("l", NewList("own"), "x", NewList())
+	default:
+		recv = NewObject("a", 1).Unset("a") // emptied, not born empty
+	}
+	nrecv := recv.Count()
+	r := recv.Merge(arg)
+	verifAssert(r != recv && r != arg, "Merge returns a new object")
+	verifAssert(r.Get("l") == any(inL) && r.Get("o") == any(inO), "the result holds the argument's containers themselves")
+	verifAssert(r.Contains(inL) && r.KeyOf(inO) == "o", "Contains / KeyOf find the argument's containers in the result")
+	inL.Add("later")
+	inO.Set("q", 2)
+	verifAssert(r.GetList("l").Count() == 2 && r.GetObject("o").Count() == 2, "a change made through the argument's container is seen through the result")
+	verifAssert(arg.Count() == 3 && recv.Count() == nrecv, "Merge leaves both operands' field sets alone")
+	verifReach("end")
+}
